@@ -617,22 +617,24 @@ CopyGroup ==
 Enabled(a) == a \in Acts
 Next ==
     /\ ~s.broken /\ ~s.halt
-    /\ TLCGet("level") <= MaxLevel
-    /\ IF Corrupt(s) THEN Reopen
-       ELSE \/ Enabled("Populate") /\ Populate
-            \/ Enabled("AddHole") /\ AddHole
-            \/ Enabled("AddDepthData") /\ AddTableData("D")
-            \/ Enabled("AddIntervalData") /\ AddTableData("I")
-            \/ Enabled("SetValues") /\ SetValues
-            \/ Enabled("Rename") /\ Rename
-            \/ Enabled("RemoveDataViaParent") /\ RemoveData("parent")
-            \/ Enabled("RemoveDataViaWorkspace") /\ RemoveData("ws")
-            \/ Enabled("RemoveHoleViaParent") /\ RemoveHole("parent")
-            \/ Enabled("RemoveHoleViaWorkspace") /\ RemoveHole("ws")
-            \/ Enabled("RemovePropertyGroup") /\ RemovePropertyGroup
-            \/ Enabled("AddValuesToTable") /\ AddValuesToTable
-            \/ Enabled("Reopen") /\ Reopen
-            \/ Enabled("CopyGroup") /\ CopyGroup
+    /\ \/ /\ TLCGet("level") <= MaxLevel
+          /\ IF Corrupt(s) THEN Reopen
+             ELSE \/ Enabled("Populate") /\ Populate
+                  \/ Enabled("AddHole") /\ AddHole
+                  \/ Enabled("AddDepthData") /\ AddTableData("D")
+                  \/ Enabled("AddIntervalData") /\ AddTableData("I")
+                  \/ Enabled("SetValues") /\ SetValues
+                  \/ Enabled("Rename") /\ Rename
+                  \/ Enabled("RemoveDataViaParent") /\ RemoveData("parent")
+                  \/ Enabled("RemoveDataViaWorkspace") /\ RemoveData("ws")
+                  \/ Enabled("RemoveHoleViaParent") /\ RemoveHole("parent")
+                  \/ Enabled("RemoveHoleViaWorkspace") /\ RemoveHole("ws")
+                  \/ Enabled("RemovePropertyGroup") /\ RemovePropertyGroup
+                  \/ Enabled("AddValuesToTable") /\ AddValuesToTable
+                  \/ Enabled("Reopen") /\ Reopen
+                  \/ Enabled("CopyGroup") /\ CopyGroup
+       \* every state reached by the last allowed action is still re-opened once (read back from the file)
+       \/ TLCGet("level") = MaxLevel + 1 /\ Enabled("Reopen") /\ Reopen
 Spec == Init /\ [][Next]_vars
 
 \* ------------------------------------------------------------------ the property (C04)
